@@ -2,6 +2,8 @@ package props
 
 import (
 	"fmt"
+	"github.com/go-kid/ioc/configure"
+	"github.com/go-kid/ioc/configure/loader"
 	"github.com/go-kid/ioc/container/processors"
 
 	"github.com/go-kid/ioc"
@@ -121,7 +123,82 @@ func (p c14) topLevel(c *core.Ctx) {
 	c.Count("closers_checked", len(names))
 }
 
+// ownConfigure: the application is given a configure of its own that releases a resource in Close and - in most
+// cases - is registered as a component as well (other closers wire it): a registered one is closed exactly once like
+// every other closer, an unregistered one is no closer component (at most once).
+func (p c14) ownConfigure(c *core.Ctx) {
+	log := mon.NewLifecycle()
+	cfg := &world.ClosingConfigure{Configure: configure.Default(), Nm: "own-configure", Log: log}
+	registered := c.Rng.Intn(4) != 0
+	var comps []any
+	var names []string
+	if registered {
+		comps = append(comps, cfg)
+		names = append(names, cfg.Nm)
+	}
+	for i, n := 0, c.Rng.Intn(4); i < n; i++ {
+		t := &world.TopCloser{Nm: fmt.Sprintf("own-closer-%d", i), Log: log, Fail: c.Rng.Intn(3) == 0}
+		comps = append(comps, t)
+		names = append(names, t.Nm)
+	}
+	var subs []*world.ConfigSubscriber
+	for i, n := 0, c.Rng.Intn(3); i < n; i++ {
+		t := &world.ConfigSubscriber{TopCloser: world.TopCloser{Nm: fmt.Sprintf("own-subscriber-%d", i), Log: log}}
+		comps = append(comps, t)
+		subs = append(subs, t)
+		names = append(names, t.Nm)
+	}
+	c.Rng.Shuffle(len(comps), func(a, b int) { comps[a], comps[b] = comps[b], comps[a] })
+	ops := []app.SettingOption{app.SetLogger(world.Logger), app.SetConfigure(cfg), app.SetConfigLoader(loader.NewRawLoader([]byte("own:\n  v: configured\n"))), app.SetComponents(comps...)}
+	var err error
+	var pan any
+	a := app.NewApp()
+	func() {
+		defer func() { pan = recover() }()
+		if err = a.Run(ops...); err == nil {
+			a.Close()
+		}
+	}()
+	c.Count("starts", 1)
+	c.Count("starts_with_a_closing_configure_of_their_own", 1)
+	detail := map[string]any{"closers": names, "configure_registered_as_component": registered, "events": fmt.Sprint(log.Events())}
+	if pan != nil || err != nil {
+		c.Fail("", fmt.Sprintf("application with a configure of its own: panic=%v err=%v", pan, err), detail)
+		return
+	}
+	for _, s := range subs {
+		if s.V != "configured" || (registered && s.Source != cfg) {
+			c.Fail("", fmt.Sprintf("application with a configure of its own: subscriber %s has V=%q Source=%p", s.Nm, s.V, s.Source), detail)
+			return
+		}
+	}
+	count := func(name, kind string) (n int) {
+		for _, x := range log.Events() {
+			if x.Who == name && x.Kind == kind {
+				n++
+			}
+		}
+		return
+	}
+	for _, name := range names {
+		if b, e := count(name, "close-begin"), count(name, "close-end"); b != 1 || e != 1 {
+			c.Fail("", fmt.Sprintf("application with a configure of its own (registered as a component: %v): after App.Close closer %s has begun %d time(s) and finished %d time(s)", registered, name, b, e), detail)
+			return
+		}
+	}
+	if b := count(cfg.Nm, "close-begin"); !registered && b > 1 {
+		c.Fail("", fmt.Sprintf("the application's configure was closed %d times by one App.Close", b), detail)
+		return
+	}
+	c.Count("closers_checked", len(names))
+	c.Nontrivial(fmt.Sprint("ownconfigure|", registered, len(names)))
+}
+
 func (p c14) run(c *core.Ctx) {
+	if c.Index%40 == 31 {
+		p.ownConfigure(c)
+		return
+	}
 	if c.Index%40 == 23 {
 		p.topLevel(c)
 		return
